@@ -16,7 +16,7 @@ import (
 
 // ---- concurrent world: a few keys that share tree nodes ----------------------------------------------------------
 
-const maxKeys = 6
+const maxKeys = 8
 
 type ckey struct {
 	Method string
@@ -62,7 +62,9 @@ var keyFamilies = [][]string{
 	{"/{x}", "/{x}/a", "/{x}/{y}", "/*{z}", "/a", "/ab/c"},
 	{"a.b/x", "{h}.b/x", "/x", "a.b/{y}", "a.{t}/x", "/x/y"},
 	{"/f/a", "/f/b", "/f/{p}", "/f/a/b", "/g", "/f/*{q}"},
-	{"/a/{x}", "/a/{y}", "/a/b", "/a/{x}/b", "/a/{y}/c", "/a"}, // contains conflicting keys
+	{"/a/{x}", "/a/{y}", "/a/b", "/a/{x}/b", "/a/{y}/c", "/a"},             // contains conflicting keys
+	{"/s/c", "/s/a", "/s/e", "/s/b", "/s/d", "/s/{x}", "/s/*{y}", "/s/ab"}, // many siblings under one node (children slices grow and are re-sorted)
+	{"/s/m", "/s/k", "/s/o", "/s/j", "/s/n", "/s/l", "/s/p", "/s/i"},
 }
 
 func buildConcWorld(src sim.Source, res *Result, tsMode int) *concWorld {
@@ -70,7 +72,7 @@ func buildConcWorld(src sim.Source, res *Result, tsMode int) *concWorld {
 	cw.cfg = world.Cfg{NoMethod: sim.Bool(src, "405"), AutoOptions: sim.Bool(src, "autoopt"), GlobalTS: tsMode,
 		CacheSize: sim.Pick(src, "cache", []int{0, 1, 2, 3, 8})}
 	fam := keyFamilies[src.Intn("family", len(keyFamilies))]
-	nk := 3 + src.Intn("nkeys", maxKeys-2)
+	nk := 3 + src.Intn("nkeys", len(fam)-2)
 	methods := []string{"GET", "GET", "GET", "POST", "PURGE"}
 	for i := 0; i < nk; i++ {
 		p, err := model.Parse(fam[i])
@@ -112,33 +114,12 @@ func buildConcWorld(src sim.Source, res *Result, tsMode int) *concWorld {
 			cw.probes = append(cw.probes, pr)
 		}
 	}
-	// expectation table
-	mcfg := model.Config{NoMethod: cw.cfg.NoMethod, AutoOptions: cw.cfg.AutoOptions}
+	// expectation table, filled on demand (see expectFor)
 	cw.table = make([][]expect, len(cw.probes))
-	for pi, pr := range cw.probes {
+	for pi := range cw.probes {
 		cw.table[pi] = make([]expect, 1<<nk)
-		for mask := 0; mask < 1<<nk; mask++ {
-			set := model.NewSet()
-			ok := true
-			for i, k := range cw.keys {
-				if mask&(1<<i) != 0 {
-					r := world.ModelRoute(cw.cfg, k.Method, k.Pat, i+1, world.RouteOpt{})
-					if err := set.Insert(r); err != nil {
-						ok = false // unreachable state (conflicting keys cannot coexist)
-					}
-				}
-			}
-			if !ok {
-				cw.table[pi][mask] = expect{Kind: -2}
-				continue
-			}
-			sv := set.Serve(mcfg, pr.Method, pr.Host, pr.Path, pr.Path, model.MatchOpts{})
-			e := expect{Kind: sv.Kind, Key: -1, Allow: strings.Join(sv.Allow, ","), TSR: sv.TSR}
-			if sv.Kind == model.KRoute {
-				e.Key = sv.Route.Tag - 1
-				e.Params = world.FmtParams(sv.Params)
-			}
-			cw.table[pi][mask] = e
+		for m := range cw.table[pi] {
+			cw.table[pi][m].Kind = -9
 		}
 	}
 	w, err := world.Build(cw.cfg)
@@ -148,6 +129,36 @@ func buildConcWorld(src sim.Source, res *Result, tsMode int) *concWorld {
 	}
 	cw.w = w
 	return cw
+}
+
+// expectFor returns the reference outcome of serving probe pi when exactly the keys in mask are registered.
+func (cw *concWorld) expectFor(pi, mask int) expect {
+	if e := cw.table[pi][mask]; e.Kind != -9 {
+		return e
+	}
+	pr := cw.probes[pi]
+	mcfg := model.Config{NoMethod: cw.cfg.NoMethod, AutoOptions: cw.cfg.AutoOptions}
+	set := model.NewSet()
+	ok := true
+	for i, k := range cw.keys {
+		if mask&(1<<i) != 0 {
+			r := world.ModelRoute(cw.cfg, k.Method, k.Pat, i+1, world.RouteOpt{})
+			if err := set.Insert(r); err != nil {
+				ok = false // unreachable state (conflicting keys cannot coexist)
+			}
+		}
+	}
+	e := expect{Kind: -2}
+	if ok {
+		sv := set.Serve(mcfg, pr.Method, pr.Host, pr.Path, pr.Path, model.MatchOpts{})
+		e = expect{Kind: sv.Kind, Key: -1, Allow: strings.Join(sv.Allow, ","), TSR: sv.TSR}
+		if sv.Kind == model.KRoute {
+			e.Key = sv.Route.Tag - 1
+			e.Params = world.FmtParams(sv.Params)
+		}
+	}
+	cw.table[pi][mask] = e
+	return e
 }
 
 // ---- operations ---------------------------------------------------------------------------------------------------
@@ -160,7 +171,8 @@ type COp struct {
 	Probe  int
 	Keys   []int // view: keys read from one snapshot
 	Txn    *CTxn
-	Yields int // serve: yields inside the handler
+	Yields int    // serve: yields inside the handler
+	Inner  string // serve_write: the write the handler performs on the router (handle update delete), as in the README's Action example
 }
 
 // CTxn is a write transaction of a task program.
@@ -180,6 +192,8 @@ func (o COp) String() string {
 		return fmt.Sprintf("%s(k%d)", o.Kind, o.Key)
 	case "serve", "lookup", "reverse":
 		return fmt.Sprintf("%s(p%d)", o.Kind, o.Probe)
+	case "serve_write":
+		return fmt.Sprintf("serve(p%d){%s(k%d,tag=%d)}", o.Probe, o.Inner, o.Key, o.Tag)
 	case "view":
 		return fmt.Sprintf("view(%v)", o.Keys)
 	case "txn":
@@ -351,10 +365,16 @@ func (cw *concWorld) execRead(s *sim.Sched, rd world.Reader, op COp) COut {
 	panic("execRead: " + op.Kind)
 }
 
-func (cw *concWorld) execServe(s *sim.Sched, op COp) COut {
+func (cw *concWorld) execServe(s *sim.Sched, op COp) COut { return cw.execServeWith(s, op, nil) }
+
+func (cw *concWorld) execServeWith(s *sim.Sched, op COp, inHandler func()) COut {
 	yields := op.Yields
 	obs := cw.w.Serve(cw.probes[op.Probe], "", "", func(c fox.Context, h *world.Hit) {
 		for i := 0; i < yields; i++ {
+			s.Yield(sim.PtHandler)
+		}
+		if inHandler != nil {
+			inHandler()
 			s.Yield(sim.PtHandler)
 		}
 		// re-read the context after other tasks ran: it must still show this request
@@ -456,6 +476,24 @@ func (cw *concWorld) runProgram(s *sim.Sched, client int, prog []COp, log *taskL
 			rec.Out = cw.execWrite(cw.w.R, op)
 		case "serve":
 			rec.Out = cw.execServe(s, op)
+		case "serve_write":
+			// a request whose handler mutates the router: recorded as two operations (the request and, nested in it, the write)
+			inner := COp{Kind: op.Inner, Key: op.Key, Tag: op.Tag}
+			var wrec opRecord
+			obsOp := COp{Kind: "serve", Probe: op.Probe}
+			rec.In = obsOp
+			rec.Out = cw.execServeWith(s, obsOp, func() {
+				wrec = opRecord{Client: client, In: inner, Call: s.Stamp()}
+				wrec.Out = cw.execWrite(cw.w.R, inner)
+				wrec.Ret = s.Stamp()
+			})
+			rec.Ret = s.Stamp()
+			log.ops = append(log.ops, rec)
+			if wrec.Call != 0 {
+				log.ops = append(log.ops, wrec)
+			}
+			s.Yield(sim.PtUser)
+			continue
 		case "view":
 			rec.Out = cw.execView(s, op)
 		case "txn":
@@ -547,7 +585,7 @@ func (cw *concWorld) stepRead(st cstate, op COp, out COut) bool {
 		}
 		return out.Snap == strings.Join(parts, ",")
 	case "serve":
-		e := cw.table[op.Probe][st.mask()]
+		e := cw.expectFor(op.Probe, st.mask())
 		if out.Class != "" || out.Kind != e.Kind || out.Allow != e.Allow {
 			return false
 		}
@@ -556,7 +594,7 @@ func (cw *concWorld) stepRead(st cstate, op COp, out COut) bool {
 		}
 		return true
 	case "lookup", "reverse":
-		e := cw.table[op.Probe][st.mask()]
+		e := cw.expectFor(op.Probe, st.mask())
 		// Lookup/Reverse report the matched route (direct or slash-adjusted) whatever the dispatcher does with it
 		if e.Kind == model.KRoute && !e.TSR {
 			if out.Tag != st[e.Key] || out.TSR {
